@@ -1,12 +1,13 @@
 """Property → rules registry (see DESIGN.md §4).  Single source for MANIFEST.json."""
 
+# "fix:" commits made in /repo for genuine defects the checks found (see known_findings.json)
 FIX_COMMITS = []
 
 NOT_APPLICABLE = {
     "C16": "observational equivalence of original and instrumented programs under execution (results, traps, memory/global state, event timing) for every generated program and argument vector: no clause is a fact about the shape of wirm's code beyond what C15/C17-C22 already claim; deciding it needs an interpreter or a semantics-level proof of the lowering, i.e. a different technique family",
 }
 
-TB = ("trusted base: rustc nightly typeck/HIR/MIR and Instance::try_resolve; nightly and stable agree on this crate; "
+TB = ("Trusted base: rustc nightly typeck/HIR/MIR and Instance::try_resolve; nightly and stable agree on this crate; "
       "wasmparser/wasm_encoder behave as their types say; reviewed tables under /verif/tables. ")
 
 
@@ -24,53 +25,167 @@ TT_WE = ("typetable", "type_table", {"writers": ("wasm_encoder",), "agreement": 
 TT_BOTH = ("typetable", "type_table", {})
 TT_AUX = ("typetable", "storage_block_heap_tables", {})
 CONSTEXPR = ("constexpr", "constexpr_table", {})
+SIB = ("siblings", "instrumenter_siblings", {})
+MODEF = ("modes", "mode_field", {})
+BLOCKT = ("special", "block_tables", {})
+CLEARS = ("special", "resolve_clears", {})
+DETAILS = ("misc", "resolver_details", {})
+RECALC = ("mutators", "recalc_set", {})
+REORG = ("mutators", "reorg_inv", {})
+MISS = ("emit", "miss_loud", {})
+MAPARGS = ("emit", "map_args", {})
+IDSPACE = ("mutators", "idspace", {})
+
+
+def EM(kinds, names=False):
+    return ("emit", "emit_mapped", {"kinds": kinds, "names": names})
+
 
 PROPS = {
-    "C01": P([TT_WE, TT_AUX, CONSTEXPR],
-             "necessary-condition lint: every value type of the stated profile survives the reader→writer tables; constant-expression operators are re-emitted as themselves",
-             "R-TYPE-TABLE (wasm_encoder writer), aux tables, R-CONSTEXPR-TABLE.",
+    "C01": P([TT_WE, TT_AUX, CONSTEXPR, ("emit", "section_order", {}), ("nopanic", "payload_exh_rule", {})],
+             "necessary-condition lint: every value type of the stated profile survives the reader→writer tables; constant-expression operators are re-emitted as themselves; sections are emitted in binary-format order; every payload kind has a handler",
+             "R-TYPE-TABLE (wasm_encoder writer), aux tables, R-CONSTEXPR-TABLE, R-SECTION-ORDER, R-PAYLOAD-EXH.",
              "that the whole output validates for every module.",
-             "abstract interpretation of match tables over a finite type domain"),
+             "abstract interpretation of match tables over a finite type domain; call-order check"),
+    "C02": P([TT_WE, TT_AUX, CONSTEXPR, ("fields", "types_cover", {}), ("fields", "name_pairing", {}), ("fields", "struct_copy_pairing", {}), ("fields", "custom_sections", {})],
+             "necessary conditions of content preservation: no type/const table changes a value, no Types field is dropped by the encoder, every name subsection and custom section is re-emitted from where it was stored, struct→struct copies pair like-named fields",
+             "R-TYPE-TABLE, R-CONSTEXPR-TABLE, R-FIELDS-COVER(Types), R-NAME-PAIRING, R-COPY-PAIRING, R-CUSTOM-SECTIONS.",
+             "equality of decoded forms on every input.",
+             "table extraction + field-provenance pairing"),
     "C03": P([("nopanic", "nopanic", {})],
              "sound over-approximation: every MIR panic edge on a resolved local call path from the four parse roots is enumerated; guard idioms discharge; the rest are reported",
-             "R-NOPANIC over the local call graph (65 functions today), R-PAYLOAD-EXH.",
-             "panics inside dependencies (trusted to honour Result contracts); aborts (OOM/stack).",
+             "R-NOPANIC over the local call graph, R-PAYLOAD-EXH.",
+             "panics inside dependencies (trusted to honour Result contracts); aborts (OOM/stack); debug-only overflow checks are counted, not judged.",
              "MIR panic-edge enumeration + call-graph reachability"),
     "C04": P([("hashorder", "hashorder", {})],
              "every hash-order source in the crate is enumerated by resolved receiver type and its consumer classified; no time/env/thread/random call is reachable from encode",
-             "R-HASHORDER (6 sites today) + zero-expected nondeterminism sources on the encode call graph.",
+             "R-HASHORDER + zero-expected nondeterminism sources on the encode call graph.",
              "nothing of note for safe single-threaded Rust beyond the enumerated sources.",
              "resolved-callee enumeration + loop-body effect classification"),
-    "C08": P([("reindex", "refers_exh", {"kind": "memory"}), ("reindex", "fix_op_dispatch", {})],
-             "exhaustiveness of the memory re-index predicate/updater against the Operator ADT of the build",
-             "R-REFERS-EXH(memory), R-FIXOP-DISPATCH.",
-             "that reorganise computes the right permutation for every history; validity of the output.",
+    "C05": P([("emit", "idempotent_encode", {}), CLEARS],
+             "necessary: in-place remapping requires renormalising the ID sources; lowered special lists are cleared",
+             "R-IDEMPOTENT-ENCODE, R-RESOLVE-CLEARS.",
+             "byte equality of two encodings.",
+             "effect analysis of the encode call graph"),
+    "C06": P([("reindex", "refers_exh", {"kind": "func"}), ("reindex", "fix_op_dispatch", {}), EM(("func",)), MAPARGS, MISS, RECALC, REORG,
+              ("mutators", "coupled_import_order", {}), IDSPACE],
+             "necessary conditions for function references to stay bound: operator coverage, every function-index sink mapped, maps not swapped, loud failure on dangling references, re-indexing armed by every order-changing mutation, reorganise's position bookkeeping, import order coupling, no cross-space id casts",
+             "R-REFERS-EXH(func), R-FIXOP-DISPATCH, R-EMIT-MAPPED(func), R-MAP-ARGS, R-MISS-LOUD, R-RECALC-SET, R-REORG-INV, R-COUPLED-IMPORT-ORDER, R-IDSPACE.",
+             "that reorganise computes the right permutation for every history (only its per-branch invariant preservation is checked); validity of the output.",
+             "ADT-driven exhaustiveness + sink provenance + path rules"),
+    "C07": P([("reindex", "refers_exh", {"kind": "global"}), EM(("global",)), MAPARGS, MISS, RECALC, REORG, ("mutators", "who_may_call", {})],
+             "necessary conditions for global references to stay bound, incl. who may add to the globals collection",
+             "R-REFERS-EXH(global), R-EMIT-MAPPED(global), R-MAP-ARGS, R-MISS-LOUD, R-RECALC-SET, R-REORG-INV, R-WHOMAYCALL.",
+             "as C06.",
+             "ADT-driven exhaustiveness + sink provenance + who-may-call"),
+    "C08": P([("reindex", "refers_exh", {"kind": "memory"}), ("reindex", "fix_op_dispatch", {}), EM(("memory",)), MAPARGS, MISS, RECALC, REORG],
+             "exhaustiveness of the memory re-index predicate/updater against the Operator ADT of the build; memory sinks mapped",
+             "R-REFERS-EXH(memory), R-FIXOP-DISPATCH, R-EMIT-MAPPED(memory), R-MAP-ARGS, R-MISS-LOUD, R-RECALC-SET, R-REORG-INV.",
+             "as C06.",
              "ADT-driven match exhaustiveness"),
-    "C15": P([("modes", "mode_field", {}), ("modes", "has_instr_cover", {}), ("modes", "emit_order", {}),
-              ("siblings", "instrumenter_siblings", {})],
+    "C09": P([("misc", "delete_pairing", {}), ("emit", "del_guard", {}), MISS, RECALC, REORG],
+             "necessary: deletes address the right element and its import, emitters skip deleted, dangling references fail loudly, re-indexing armed, reorganise bookkeeping",
+             "R-DELETE-PAIRING, R-DEL-GUARD, R-MISS-LOUD, R-RECALC-SET, R-REORG-INV.",
+             "that every other entity keeps its identity over all histories.",
+             "field-provenance pairing + guarded-sink analysis"),
+    "C10": P([IDSPACE, ("misc", "convert_flows", {}), RECALC],
+             "necessary: the slot flipped to Local is addressed in the function index space, under the signature guard, after the import was deleted",
+             "R-IDSPACE, R-CONVERT-FLOW, R-RECALC-SET.",
+             "that every former use executes the new body.",
+             "newtype cross-space lint + path order"),
+    "C11": P([("mutators", "coupled_import_order", {}), ("mutators", "counter_inv", {}), ("misc", "convert_flows", {}), RECALC],
+             "necessary: import order coupling, counter invariant, provenance of the new ImportedFunction",
+             "R-COUPLED-IMPORT-ORDER, R-COUNTER-INV, R-CONVERT-FLOW, R-RECALC-SET.",
+             "redirect semantics over histories.",
+             "abstract counter deltas per path + provenance"),
+    "C12": P([("misc", "builder_flow", {}), ("mutators", "counter_inv", {}), ("mutators", "swap_flows", {}), TT_WE],
+             "necessary: builder hand-over order and arguments, sibling agreement of the finish variants, counter invariant, no same-typed parameter swaps, type table",
+             "R-BUILDER-FLOW, R-COUNTER-INV, R-SWAP, R-TYPE-TABLE.",
+             "decoded equality.",
+             "path enumeration + name-aligned flow lint"),
+    "C13": P([("fields", "types_cover", {}), ("misc", "type_dedup", {}), ("hashorder", "hashorder", {}), ("mutators", "swap_flows", {}), TT_WE],
+             "necessary: Hash/Eq/encode agree on Types fields, the type store has one writer and dedups before inserting, the dedup winner does not depend on hash order",
+             "R-FIELDS-COVER(Types), R-TYPE-DEDUP, R-HASHORDER, R-SWAP, R-TYPE-TABLE.",
+             "index stability with explicit rec groups (iso-recursive identity).",
+             "who-may-write + guarded-insert analysis"),
+    "C14": P([("mutators", "locals_owner", {}), TT_WE],
+             "the local-adding machinery has one writer with the right shape and every entry point reaches it with the parameter count of the same function",
+             "R-LOCALS (owner, shape on every path, caller arguments), R-TYPE-TABLE.",
+             "nothing beyond the trusted base for the index formula; the encoded declaration relies on C01's tables.",
+             "who-may-write + path enumeration"),
+    "C15": P([MODEF, ("modes", "has_instr_cover", {}), ("modes", "emit_order", {}), SIB],
              "structural whole of the plain-mode lowering: mode→list dispatch, has_instr coverage, emission order on every path, sibling agreement of the injection APIs",
              "R-MODE-FIELD, R-HAS-INSTR, R-EMIT-ORDER, R-SIBLING(instrumenter).",
              "textual equality on concrete programs (a consequence).",
              "path enumeration over structured HIR + sibling effect summaries"),
-    "C22": P([("special", "special_flag", {}), ("special", "resolve_clears", {}), ("special", "entry_preserve", {}),
-              ("modes", "mode_field", {}), ("siblings", "instrumenter_siblings", {})],
-             "necessary set: the is-special result is never dropped, lowered lists are cleared with the matching mode, the saved entry body is never overwritten, mode→list dispatch",
-             "R-SPECIAL-FLAG, R-RESOLVE-CLEARS, R-ENTRY-PRESERVE, R-MODE-FIELD, R-SIBLING(instrumenter).",
+    "C17": P([BLOCKT, DETAILS, CLEARS, ("special", "entry_preserve", {})],
+             "necessary: exit probes cover every return/throw/trap operator, wrapper opened/closed once, entry at idx 0, entry body preserved",
+             "R-BLOCK-TABLES(4), R-RESOLVER-DETAILS, R-RESOLVE-CLEARS, R-ENTRY-PRESERVE.",
+             "firing counts at run time.",
+             "ADT-driven table checks + path enumeration"),
+    "C18": P([BLOCKT, DETAILS, CLEARS],
+             "necessary: accepting predicate, resolver and driver agree on {Block,Loop,If,Else}; body placed After the opener; list cleared",
+             "R-BLOCK-TABLES(2), R-RESOLVER-DETAILS, R-RESOLVE-CLEARS.",
+             "firing semantics.",
+             "table agreement"),
+    "C19": P([BLOCKT, DETAILS, ("misc", "scoped_pending", {}), CLEARS],
+             "necessary: every opener pushed, exit bodies scoped to their block and resolved Before the closing else/end",
+             "R-BLOCK-TABLES(1,2), R-RESOLVER-DETAILS, R-SCOPED-PENDING, R-RESOLVE-CLEARS.",
+             "firing semantics.",
+             "table agreement + container scoping analysis"),
+    "C20": P([BLOCKT, DETAILS, ("misc", "scoped_pending", {}), ("misc", "dead_after_sink", {}), CLEARS],
+             "necessary: branch tables agree, target id arithmetic, flag protocol (set/reset), flag reset inside guard, no After code on the final end",
+             "R-BLOCK-TABLES(1,3), R-RESOLVER-DETAILS, R-SCOPED-PENDING(flag reset), R-DEAD-AFTER-SINK, R-RESOLVE-CLEARS.",
+             "exactly-once at run time.",
+             "table agreement + path enumeration"),
+    "C21": P([BLOCKT, DETAILS, CLEARS],
+             "necessary: opener stack, delete_block bookkeeping, retain_end, every visited instruction emptied while deleting",
+             "R-BLOCK-TABLES(1,2), R-RESOLVER-DETAILS, R-RESOLVE-CLEARS.",
+             "textual result.",
+             "table agreement + guarded-write analysis"),
+    "C22": P([("special", "special_flag", {}), CLEARS, ("special", "entry_preserve", {}), MODEF, SIB, ("misc", "dead_after_sink", {}), ("modes", "has_instr_cover", {})],
+             "necessary set: the is-special result is never dropped, lowered lists are cleared with the matching mode, the saved entry body is never overwritten, mode→list dispatch, no dead After sink",
+             "R-SPECIAL-FLAG, R-RESOLVE-CLEARS, R-ENTRY-PRESERVE, R-MODE-FIELD, R-SIBLING(instrumenter), R-DEAD-AFTER-SINK, R-HAS-INSTR.",
              "that every accepted special injection appears in the bytes for every body.",
              "result-use analysis + guarded-write analysis"),
+    "C23": P([("emit", "tag_emit", {}), MODEF],
+             "necessary: InjectType↔Injection pairing, guards, parse-path tags are None, probe bodies collected after remapping",
+             "R-TAG-EMIT (incl. R-PARSE-TAG-NONE), R-MODE-FIELD.",
+             "record multiset over histories.",
+             "pairing table + dominance by statement order"),
     "C24": P([("opcode", "opcode_table", {}), TT_AUX, TT_BOTH],
              "finite obligations: 200 helpers × {one inject on self, variant = reviewed table, each immediate from one parameter through bit-preserving conversions}; the conversion tables the helpers rely on are decided by R-TYPE-TABLE",
              "R-OPCODE-TABLE for all helpers, R-TYPE-TABLE(aux) for BlockType/HeapType conversions, writer agreement for DataType.",
              "Inject::inject implementations (C15/C12) and dependency From impls (trusted).",
              "abstract interpretation of each helper body; frozen reviewed name→variant table", level="proof"),
-    "C26": P([("siblings", "instrumenter_siblings", {})],
-             "ModuleIterator and ComponentIterator perform the same operation on the same LocalFunction API for every trait method",
-             "R-SIBLING(instrumenter).",
+    "C25": P([("iters", "skip_loop", {}), ("iters", "coupled_state", {}), ("iters", "index_sites", {})],
+             "necessary: the skip loop can only stop on an unskipped function or past the end; cursor and instruction bound move together; no unguarded index in the sub-iterators",
+             "R-SKIP-LOOP, R-COUPLED-STATE, R-ITER-INDEX.",
+             "exactly-once visiting over all skip lists.",
+             "loop-exit condition analysis + path enumeration + MIR index sites"),
+    "C26": P([SIB, ("iters", "coupled_state", {}), ("mutators", "who_may_call", {})],
+             "ModuleIterator and ComponentIterator perform the same operation on the same LocalFunction API for every trait method; module cursor changes rebuild the module sub-iterator from metadata and skip list",
+             "R-SIBLING(instrumenter), R-COUPLED-STATE, R-WHOMAYCALL.",
              "visit-sequence equality over all components and skip maps.",
              "sibling effect summaries"),
-    "C30": P([CONSTEXPR, TT_BOTH],
-             "bit-exact constant expressions and exact types for module-level additions",
-             "R-CONSTEXPR-TABLE, R-TYPE-TABLE incl. the wasmparser writer used by add_global.",
+    "C27": P([("component", "variant_method_tables", {}), ("component", "section_pairing", {})],
+             "necessary: each defined-type / canonical-function variant is re-encoded through its own builder method; each section tag replays the vector it recorded with its own cursor",
+             "R-VARIANT-METHOD (2 + 1 tables, 67 arms), R-SECTION-PAIRING (12 tags).",
+             "correctness of the nesting-skip stack for depth ≥ 2 (push-down discipline over runtime payload sequences).",
+             "variant→method correspondence + tag↔vector pairing"),
+    "C28": P([("fields", "custom_sections", {})],
+             "necessary: one owner of the custom-section list, order-preserving API, name/data copied to name/data, forward emission",
+             "R-CUSTOM-SECTIONS.",
+             "byte equality of the emitted sections over edit sequences.",
+             "who-may-write + field pairing"),
+    "C29": P([EM(("func", "global", "memory"), names=True), ("misc", "name_dispatch", {}), ("fields", "name_pairing", {})],
+             "necessary: index-keyed name maps must not be emitted with pre-edit indices; naming dispatches on kind; each name kind re-emitted from where it was stored",
+             "R-EMIT-MAPPED(names), R-NAME-DISPATCH, R-NAME-PAIRING.",
+             "name equality over histories.",
+             "sink provenance"),
+    "C30": P([CONSTEXPR, TT_BOTH, ("misc", "additions", {}), ("mutators", "swap_flows", {}), ("mutators", "who_may_call", {})],
+             "bit-exact constant expressions, exact types, parameter→field flows of the module-level adders",
+             "R-CONSTEXPR-TABLE, R-TYPE-TABLE incl. the wasmparser writer used by add_global, R-ADD-FLOW, R-SWAP, R-WHOMAYCALL.",
              "decoded equality of whole modules.",
-             "abstract interpretation of match tables"),
+             "abstract interpretation of match tables + name-aligned flow lint"),
 }
